@@ -156,11 +156,24 @@ class _ParseFn(py2coq.Fn):
             if ta != B:
                 raise Unsupported('unpack operand')
             return '(unpack_be16 %s)' % a, I
+        # struct.unpack("<I", memoryview(x)[a:b])[0]
+        if isinstance(e, ast.Subscript) and isinstance(e.value, ast.Call) and ast.unparse(e.value.func) in ('unpack', 'struct.unpack') \
+                and isinstance(e.slice, ast.Constant) and e.slice.value == 0 and len(e.value.args) == 2 \
+                and isinstance(e.value.args[0], ast.Constant) and e.value.args[0].value == '<I':
+            arg = e.value.args[1]
+            if isinstance(arg, ast.Subscript) and isinstance(arg.value, ast.Call) and ast.unparse(arg.value.func) == 'memoryview' \
+                    and len(arg.value.args) == 1:
+                arg = ast.Subscript(value=arg.value.args[0], slice=arg.slice, ctx=ast.Load())
+            a, ta = self.expr(arg, env)
+            if ta != B:
+                raise Unsupported('unpack operand')
+            return '(unpack_le32 %s)' % a, I
         return super().expr(e, env)
 
 
 def _is_log(s):
-    return isinstance(s, ast.Expr) and isinstance(s.value, ast.Call) and ast.unparse(s.value.func).startswith('self.log.')
+    return isinstance(s, ast.Expr) and isinstance(s.value, ast.Call) and (ast.unparse(s.value.func).startswith('self.log.') or
+                                                                          ast.unparse(s.value.func).startswith('log.'))
 
 
 def _terminal(stmts):
@@ -232,9 +245,29 @@ def pn53x_parse(repo):
     return 'Definition gen_pn53x_parse (cmd_code : Z) (frame : list Z) : res (list Z) :=\n  %s.\n' % text
 
 
+def acr122_parse(repo):
+    tree = ast.parse(open(os.path.join(repo, 'src/nfc/clf/acr122.py')).read())
+    xfr = _cls_method(tree, 'Chipset', 'ccid_xfr_block')
+    cmd = _cls_method(tree, 'Chipset', 'command')
+    # ccid_xfr_block: everything after `frame = self.transport.read(...)`
+    rd = [i for i, x in enumerate(xfr.body) if _is_name_assign(x, 'frame') and 'self.transport.read(' in ast.unparse(x.value)]
+    if len(rd) != 1:
+        raise Unsupported('ccid_xfr_block: transport.read statement')
+    fn = _ParseFn(_synth('x', ['cmd_code', 'frame'], [ast.Pass()]), {'cmd_code': I, 'frame': B})
+    env = {'cmd_code': (I, True), 'frame': (B, True)}
+    t1 = _parse_block(fn, xfr.body[rd[0] + 1:], env, None)
+    # command: everything after `frame = self.ccid_xfr_block(frame, timeout)`
+    cx = [i for i, x in enumerate(cmd.body) if _is_name_assign(x, 'frame') and 'self.ccid_xfr_block(' in ast.unparse(x.value)]
+    if len(cx) != 1:
+        raise Unsupported('acr122 command: ccid_xfr_block call')
+    t2 = _parse_block(fn, cmd.body[cx[0] + 1:], env, None)
+    return ('Definition gen_ccid_parse (frame : list Z) : res (list Z) :=\n  %s.\n\n'
+            'Definition gen_acr122_rsp_parse (cmd_code : Z) (frame : list Z) : res (list Z) :=\n  %s.\n' % (t1, t2))
+
+
 def generate(repo):
     out = [py2coq.PRELUDE % {'src': 'src/nfc/clf/pn53x.py, acr122.py, rcs380.py (frame construction statements)'}]
-    for g in (pn53x_build, acr122_build, rcs380_build, pn53x_parse):
+    for g in (pn53x_build, acr122_build, rcs380_build, pn53x_parse, acr122_parse):
         out.append(g(repo))
         out.append('\n')
     return ''.join(out)
